@@ -141,6 +141,16 @@ TEMPLATES = [
 ]
 
 
+# open-ended COUNTED repetitions {n,} (n >= 2) over bodies that can be empty: the parser compiles them to a finite chain of
+# helper rules (unlike * and +), so they terminate - with very large forests; first tree and first prefix tree are requested
+COUNTED_NULLABLE = [
+    ('<start> ::= (<a>?){2,} "x"\n<a> ::= "y"\n', ["x", "yx", "yyx", "xx", "y"]),
+    ('<start> ::= <f>{2,} ";"\n<f> ::= <k>? <pad>\n<k> ::= "k"\n<pad> ::= " "{0,2}\n', [";", "k;", "k k;", " ;", "kk"]),
+    ('<start> ::= (<a>?){3,}\n<a> ::= "y"\n', ["", "y", "yyyy", "x"]),
+    ('<start> ::= "b" (<a>{0,2}){2,} "x"\n<a> ::= "y"\n', ["bx", "byyx", "b", "byx"]),
+]
+
+
 def rec_family():
     """recursion (left / right / nested) x what follows the recursive call (a nullable symbol, an operator, both) x the
     shape of the nullable symbol x the operand (a literal, a nullable prefix, a length-prefixed field): all combinations"""
@@ -219,6 +229,8 @@ def run(tier, seed):
             for _ in range(12):
                 words.add("".join(rnd.choice(alpha) for _ in range(n)))
         jobs.append((spec, "<start>", sorted(words), 60, {}, 20.0))
+    for spec, words in COUNTED_NULLABLE:
+        jobs.append((spec, "<start>", words, 200, {w: 999 for w in words}, 20.0))
     fam = rec_family()
     rnd.shuffle(fam)
     fam = fam[:48] if tier == "quick" else fam
